@@ -1,7 +1,9 @@
 // C01: plain bitvector answers every rank/select/pred/succ query exactly.
 use crate::bvgen::*;
 use crate::common::*;
-use simple_sds::bit_vector::BitVector;
+use simple_sds::bit_vector::rank_support::RankSupport;
+use simple_sds::bit_vector::select_support::SelectSupport;
+use simple_sds::bit_vector::{BitVector, Complement, Identity};
 use simple_sds::ops::*;
 use simple_sds::raw_vector::{PushRaw, RawVector};
 use std::fmt::Write;
@@ -108,9 +110,18 @@ fn emit_inner(out: &mut Out, kind: &str, bits: &[bool], all_queries: bool, nq: u
     idxs.extend(extremes(len));
     ranks.extend(extremes(ones));
     zranks.extend(extremes(zeros));
+    // the public support objects themselves (the checked RankSupport::rank / SelectSupport::select, which BitVector
+    // does not call): same answers inside their documented domain
+    let rs = if sup & 1 != 0 { Some(RankSupport::new(&bv)) } else { None };
+    let ss1 = if sup & 2 != 0 { Some(SelectSupport::<Identity>::new(&bv)) } else { None };
+    let ss0 = if sup & 4 != 0 { Some(SelectSupport::<Complement>::new(&bv)) } else { None };
     for i in idxs.iter() {
         if *i < len {
             push(format!("QGet {} {}", i, b(bv.get(*i))), &mut q);
+            if let Some(rs) = rs.as_ref() {
+                push(format!("QRank {} {}", i, rs.rank(&bv, *i)), &mut q);
+                out.stat("c01.q.rank_support_object");
+            }
         }
         if sup & 1 != 0 {
             push(format!("QRank {} {}", i, bv.rank(*i)), &mut q);
@@ -126,11 +137,19 @@ fn emit_inner(out: &mut Out, kind: &str, bits: &[bool], all_queries: bool, nq: u
     if sup & 2 != 0 {
         for r in ranks.iter() {
             push(format!("QSel {} {}", r, opt(&bv.select(*r), |p| nu(*p))), &mut q);
+            if *r < ones {
+                push(format!("QSel {} (Some {})", r, nu(ss1.as_ref().unwrap().select(&bv, *r))), &mut q);
+                out.stat("c01.q.select_support_object");
+            }
         }
     }
     if sup & 4 != 0 {
         for r in zranks.iter() {
             push(format!("QSel0 {} {}", r, opt(&bv.select_zero(*r), |p| nu(*p))), &mut q);
+            if *r < zeros {
+                push(format!("QSel0 {} (Some {})", r, nu(ss0.as_ref().unwrap().select(&bv, *r))), &mut q);
+                out.stat("c01.q.select_zero_support_object");
+            }
         }
     }
     q.push(']');
